@@ -95,19 +95,19 @@ CLAIMED.update({
 
 CLAIMED.update({
     "C03": {
-        "text": "Every unreachable!(), expect() and index of the modelled solver is a Panic value. load_wf proves that every rule the "
-                "loader accepts has the evaluable shape (every identifier the condition mentions exists -- by an invariant of the "
-                "Pratt parser against the loader's token scan --, every operand of and/or/not is a predicate, fix D3; identifier "
-                "blocks are identifier-free), solve_wf_no_panic that such a rule never panics in matches() on ANY document function, "
-                "loaded_rule_evaluates the corollary incl. validate(). C03_opt: for every loadable rule and the EIGHT switch sets without "
-                "matrix, optimise returns (optimise_no_matrix_total: every identifier is found, the fuel of shake_0 suffices, rewrite "
-                "falls back), its result is again of evaluable shape (optimised_no_matrix_wf) and matches()/validate() on it never "
-                "panic (optimised_no_matrix_evaluates) -- for every hash order. For the matrix pass the panic behaviour is tied by the "
-                "correspondence check over all 16 switch sets on adversarial documents and the coverage families (the model predicts "
-                "a panic exactly where the crate panics); the two known classes D19 (matrix cast=cast cell) and D21 (>= 55297 "
-                "columns) are listed findings.",
-        "note": TB + "PARTIAL for the matrix switch: that matrix() returns and that its table evaluates without panic outside D19/D21 is stated (Properties/C03_matrix.v) and covered by the differential runs; its proof is in progress.",
-        "technique": "Coq proof (parser/loader invariant, size induction over expressions) + differential adversarial-document runs over 16 switch sets",
+        "text": "Every unreachable!(), expect() and index of the modelled loader, optimiser and solver is a Panic value. load_wf proves "
+                "that every rule the loader accepts has the evaluable shape (every identifier the condition mentions exists -- by an "
+                "invariant of the Pratt parser against the loader's token scan --, every operand of and/or/not is a predicate, fix "
+                "D3; identifier blocks are identifier-free), solve_wf_no_panic that such a rule never panics in matches() on ANY "
+                "document function, loaded_rule_evaluates the corollary incl. validate(). For optimised rules: "
+                "optimise_total_all and optimised_evaluates_all (C03_total) -- for EVERY loadable rule, ALL SIXTEEN switch sets and "
+                "every map order that does not invent keys, optimise() returns (every identifier is found, the fuel of the passes "
+                "suffices, rewrite falls back, every matrix column gets a key) and matches() / validate() of the optimised rule never "
+                "panic; no exclusion is left since the repairs D4, D18/D19 and D21 (known_d18_never proves the D18 class impossible). "
+                "On the crate: random accepted rules and the coverage families x 16 switch sets x adversarial documents under "
+                "catch_unwind, every corpus witness as a regression case, the 55 400-field rule, optimised trees compared structurally.",
+        "note": TB + "Native stack exhaustion is out of scope (depth <= 64).",
+        "technique": "Coq proof (parser/loader invariant, shape preservation by every pass incl. the matrix table, fuel sufficiency) + differential adversarial-document runs over 16 switch sets",
     },
     "C15": {
         "text": "ignore_case_eq_prefix proves into_identifier(ic=true, s) = into_identifier(ic=false, 'i'+s) for every string; "
